@@ -23,6 +23,21 @@ def doc_corpus():
     O = ("class O { public constructor() -> O = default;\n  public function f(A a) -> string { return \"f(A)\"; }\n  public function f(B b) -> string { return \"f(B)\"; }\n"
          "  public function h(int a) -> string { return \"h(int)\"; }\n  public function h(long a) -> string { return \"h(long)\"; } }\n")
     return [
+        ("after destroy a variable is a null reference of its class",
+         AB + O + "class Dg { public constructor() -> Dg = default; public destructor() -> Dg { echo(\"~Dg\"); } }\n"
+         "function main() -> void { Dg d = new Dg(); destroy d; if (d != null) { echo(\"not null\"); } else { echo(\"null\"); } "
+         "O o = new O(); A x = new B(); destroy x; echo(o.f(x)); echo(x == null); }", "~Dg\nnull\nf(A)\ntrue\n"),
+        ("destroy of a field, instance or static, gives the reference up at once",
+         "class R { public string n; public constructor(string n) -> R { this.n = n; return this; } public destructor() -> R { echo(\"~R \" + this.n); } }\n"
+         "class H { public static R inst = new R(\"static\"); public R child = new R(\"child\"); public constructor() -> H = default; }\n"
+         "function main() -> void { H h = new H(); destroy h.child; echo(\"a\"); destroy H.inst; echo(\"b\"); echo(H.inst == null); echo(h.child == null); }",
+         "~R child\na\n~R static\nb\ntrue\ntrue\n"),
+        ("static fields: defaults first, then the declared initialisers in textual order",
+         "class A { public static A first = new A(); public static int count = 5; public int id; public constructor() -> A { count = count + 1; this.id = count; return this; } }\n"
+         "function main() -> void { echo(A.count); A b = new A(); echo(b.id); echo(A.first.id); }", "5\n6\n1\n"),
+        ("overloads on a class and on an array of that class are two methods",
+         "class A { public constructor() -> A = default; }\nclass O { public constructor() -> O = default; public virtual function p(A a) -> void { echo(\"p(A)\"); } "
+         "public virtual function p(A[] a) -> void { echo(\"p(A[])\"); } }\nfunction main() -> void { O o = new O(); A a = new A(); o.p(a); }", "p(A)\n"),
         ("a variable keeps its declared class through null and reassignment",
          AB + O + "function main() -> void { O o = new O(); A x = new B(); echo(o.f(x)); x = null; echo(o.f(x)); x = new B(); echo(o.f(x)); }", "f(A)\nf(A)\nf(A)\n"),
         ("a field keeps its declared class through null and reassignment",
